@@ -981,15 +981,17 @@ class SP(Robot):
 
         #solres = sci.optimize.fmin(fkprime, self.getTopT().TAA, disp=True)
         init = self.getTopT().TAA
+        start_top = self.getTopT().copy()
         found_sol = True
         solres = sci.optimize.fsolve(fk, init)
         sol = tm(solres)
-        sol.angleMod()
         sol.TMtoTAA()
         self.IK(top_plate_pos = sol, bottom_plate_pos = plate_pos, protect = True)
         nLens = self.getLens()
         for j in range(6):
             if abs(abs(L[j]) - abs(nLens[j])) > 0.00001 or not self.validate(True):
+                #The rejected root is no starting point: fall back from the pose FK was started at
+                self.IK(top_plate_pos = start_top, bottom_plate_pos = plate_pos, protect = True)
                 return self._FKRaphson(L, plate_pos, protect)
         #If not "Protected" from recursion, call IK.
         if not protect:
